@@ -28,6 +28,8 @@ def run(ctx):
                               "m_mask", "m_shift")
         length_rule(ctx, "C09.U", fv, g["name"], "m_val_l", "msize")
     minimiser.run(ctx, "C09", "plain")
+    from . import c13
+    c13.minimiser_binding_rules(dep(ctx, "C09", "C13"))
 
 
 def length_rule(ctx, rule, fv, name, lf, sizef):
